@@ -60,3 +60,46 @@ Example C01_example :
     = [(0, 0); (0, 0); (0, 0); (0, 0)] /\
   snd (deliver ex_state 1000 (MSwap 10 0 1 1000000000000000000 0)) = true.
 Proof. vm_compute. repeat split; reflexivity. Qed.
+
+(* ---- x/margin (model of Model/Margin.v): what the module account holds beyond what the position's pool records
+   (balance + custody, native and external side) is unchanged, and no other denomination of the module account
+   moves, by Open, Close, AdminClose and by the begin blocker's processing of a position whatever its outcome ---- *)
+Require Sif.Model.Margin Sif.Proofs.MarginProofs.
+Module M := Sif.Model.Margin.
+Module MP := Sif.Proofs.MarginProofs.
+
+Theorem C01_margin_open : forall s hl signer coll borrow amt lev c' u,
+  signer <> M.CLP_MODULE ->
+  M.open_msg s hl signer coll borrow amt lev = (c', Ok u) ->
+  let a := if coll =? M.ROWAN then borrow else coll in
+  exists pool, get a (M.ms_pools s) = Some pool /\
+    MP.gap_eq (M.mkCtx s pool (M.new_mtp coll borrow (Z.min lev (M.mp_lev_max (M.ms_params s)))) a signer 0) c'.
+Proof. exact MP.open_gap. Qed.
+Print Assumptions C01_margin_open.
+
+Theorem C01_margin_close : forall s signer id c' r,
+  MP.SumInv s -> MP.pct_ok s -> (forall m, M.find_mtp s signer id = Some m -> MP.position_ok s signer id m) ->
+  MP.funds_not_module s -> signer <> M.CLP_MODULE ->
+  M.close_msg s signer id = (c', Ok r) ->
+  exists pool m, M.find_mtp s signer id = Some m /\ get (M.pool_asset_of m) (M.ms_pools s) = Some pool /\
+    MP.gap_eq (M.mkCtx s pool m (M.pool_asset_of m) signer id) c'.
+Proof. exact MP.close_gap. Qed.
+Print Assumptions C01_margin_close.
+
+Theorem C01_margin_admin_close : forall s adm addr id tf c' r,
+  MP.SumInv s -> MP.pct_ok s -> (forall m, M.find_mtp s addr id = Some m -> MP.position_ok s addr id m) ->
+  MP.funds_not_module s -> addr <> M.CLP_MODULE ->
+  M.admin_close_msg s adm addr id tf = (c', Ok r) ->
+  exists pool m, M.find_mtp s addr id = Some m /\ get (M.pool_asset_of m) (M.ms_pools s) = Some pool /\
+    MP.gap_eq (M.mkCtx s pool m (M.pool_asset_of m) addr id) c'.
+Proof. exact MP.admin_close_gap. Qed.
+Print Assumptions C01_margin_admin_close.
+
+Theorem C01_margin_begin_block_position : forall a s p m addr id c' o,
+  M.process_mtp (M.mkCtx s p m a addr id) = (c', o) ->
+  M.epoch_position s = 0 -> MP.LoopInv a s p -> M.find_mtp s addr id = Some m -> MP.on_pool a m -> id <> 0 -> MP.pct_ok s ->
+  0 <= M.m_cust_amt m <= bal (M.ms_bank s) M.CLP_MODULE (M.m_cust_asset m) ->
+  MP.funds_not_module s -> addr <> M.CLP_MODULE ->
+  MP.gap_eq (M.mkCtx s p m a addr id) c'.
+Proof. exact MP.process_mtp_gap. Qed.
+Print Assumptions C01_margin_begin_block_position.
